@@ -45,6 +45,13 @@ def S4() -> Spec:
                 [Res("r1"), Res("r2")], length="2w")
 
 
+def S4two() -> Spec:
+    """allocate r1 { alternative r2, r3 } with r1 kept busy: exactly ONE of the alternatives stands in"""
+    return Spec([Task("comp", effort=P("e0"), alloc=["r1"], prio=900),
+                 Task("flex", effort=P("e1"), alloc=["r1"], alt=["r2", "r3"], prio=100)],
+                [Res("r1"), Res("r2"), Res("r3")], length="2w")
+
+
 def S5(dated: bool = False) -> Spec:
     """containers c{a, b{d}} with a dependency on a container and one into a container"""
     return Spec([
@@ -246,6 +253,7 @@ def sched_cells(tier: str) -> dict[str, Callable[[], tuple[Spec, dict, Optional[
     add("S2x2+milestone[gap=29min]", lambda: with_milestone("29min"), 60, int(1.5 * H))
     add("S3team", lambda: S3(), 60, 2 * H)
     add("S4alt", lambda: S4(), 60, 3 * H)
+    add("S4alt[two]", lambda: S4two(), H, 3 * H)
     add("S5containers", lambda: S5(), 60, 2 * H)
     add("S5dated", lambda: S5(dated=True), 60, 2 * H)
     for kind in ("same-deadline", "chain", "container", "project-end", "same-ids", "mixed"):
@@ -448,7 +456,7 @@ _BANDS = ["S1x2[band=00]", "S1x2[band=01]", "S1x2[band=11]", "S2x2[band=00]", "S
 QUICK_CELLS = {
     "C01": _BANDS + ["S1x2[eff=1.0]", "S1x2[eff=0.5]", "S1x2[res=900]", "S2x2[eff=1.0]", "S1x3[bands=000]", "S2x2+1", "S3team", "S3mixed[prefix]", "S4alt",
                      "S2cross[prefix]", "S7[same-deadline]", "S7[mixed]", "S2x2[onstart]"],
-    "C03": _BANDS + ["S1x2[eff=1.0]", "S1x2[eff=0.5]", "S1x2[eff=2.0]", "S2x2[res=900]", "S1x3[bands=010]", "S3team", "S3mixed", "S3mixed[prefix]", "S4alt",
+    "C03": _BANDS + ["S1x2[eff=1.0]", "S1x2[eff=0.5]", "S1x2[eff=2.0]", "S2x2[res=900]", "S1x3[bands=010]", "S3team", "S3mixed", "S3mixed[prefix]", "S4alt", "S4alt[two]",
                      "S7[container]", "S5containers", "S6[dres]"],
     "C04": _BANDS + ["S2x2[gap=1h]", "S2x2[gap=1d]", "S2x2[onstart]", "S5containers", "S5dated", "S2x2+milestone", "S2x2+milestone[gap=29min]",
                      "S2levels[outer-gap]", "S2levels[inner-onstart]", "S7[chain]", "S7[container]", "S7[same-ids]", "S10[dep]"],
